@@ -128,6 +128,65 @@ def line_donors(ent, prim):
     return reach - {prim, "*"}
 
 
+# ---- the MECHANISM of the two open lookup findings, written out: candidates by unanchored search, score = characters
+# captured by the leftmost-greedy match, inheritance decided once by searching the patterns in the TEXT of the Host
+# lines.  A deviation from the specification is attributed to those findings only if the real answer is exactly what
+# this mechanism yields -- anything else (a changed merge, a changed tie-break ...) is a NEW violation.
+_RX_CACHE = {}
+
+
+def _search_score(p, text):
+    rx = _RX_CACHE.get(p)
+    if rx is None:
+        rx = _RX_CACHE[p] = _rx(p)
+    m = rx.search(text)
+    return None if m is None else sum(e - b for b, e in m.regs[1:])
+
+
+def _finding_fuzzy(name, keys):
+    best = None
+    for k in keys:
+        for p in k.split():
+            sc = _search_score(p, name)
+            if sc is not None and (best is None or sc < best[0]):
+                best = (sc, k)
+    return best[1] if best else "*"
+
+
+def finding_table(blocks):
+    ent = spec_entries(blocks)
+    table = OrderedDict((k, dict(o)) for k, (_, o) in ent.items())
+    for host in table:
+        cur = list(table)
+        while True:
+            fm = _finding_fuzzy(host, cur or list(table))
+            for a in ATTRS_SET:
+                if a != "hostname" and not table[host].get(a) and table[fm].get(a):
+                    table[host][a] = table[fm][a]
+            if fm in cur:
+                cur.remove(fm)
+            else:
+                break
+    return table
+
+
+def finding_lookup(blocks, name, _cache={}):
+    key = json.dumps(blocks, sort_keys=True)
+    if _cache.get("key") != key:
+        _cache.clear()
+        _cache.update(key=key, blocks=blocks, table=finding_table(blocks))
+    table = _cache["table"]
+    if name in table:
+        k = name
+    else:
+        k = next((k for k in table if name in k.split()), None) or _finding_fuzzy(name, list(table))
+    return k, {a: conv(a, v) for a, v in table[k].items()}
+
+
+def conv(a, v):
+    return int(v) if a == "port" else os.path.expanduser(v) if a == "identity_file" else v
+
+
 HOSTWORD = re.compile(r"\bhost(?=\s|$)", re.I)
 
 
@@ -289,6 +348,23 @@ def gen_names(rng, blocks, k=6):
     return out
 
 
+def gen_overlap_configs():
+    """an exactly named entry matched by 2-3 wildcard entries that OVERLAP on it but do not match one another
+    (prefix*, *suffix, pre*suf), each setting a different option, optionally Host *, in every block order"""
+    out = []
+    for name, pats in (("sw1.lab", ["sw1*", "*.lab", "s*b"]), ("core-7.dc2", ["core-*", "*.dc2", "c?re*2"]), ("web01", ["web*", "*01", "w*1"])):
+        opts = [("port", "2201"), ("user", "labadmin"), ("identity_file", "/keys/overlap_rsa")]
+        for nw in (2, 3):
+            for with_star in (False, True):
+                for own in ({}, {"identities_only": "yes"}):
+                    blocks = [([name], dict(own))] + [([p], {a: v}) for p, (a, v) in zip(pats[:nw], opts[:nw])]
+                    if with_star:
+                        blocks.append((["*"], {opts[nw % 3][0]: "9" if opts[nw % 3][0] == "port" else "star" if opts[nw % 3][0] == "user" else "/keys/star"}))
+                    for perm in itertools.permutations(blocks):
+                        out.append(([(list(p), dict(o)) for p, o in perm], [name, name.upper(), name + "x", "x" + name, name[:-1]]))
+    return out
+
+
 # =====================================================================================================
 # real code
 # =====================================================================================================
@@ -423,6 +499,13 @@ def matcher(case):
     ent = spec_entries(blocks)
     if k == "raise":
         return None
+    if k in ("only", "primary", "inherit"):
+        # narrow: the real answer must be exactly what the recorded mechanism (finding_lookup) yields
+        fk, fv = finding_lookup(blocks, name)
+        if case.get("got_primary") != fk:
+            return None
+        if k in ("only", "inherit") and (case.get("got_value") or None) != (fv.get(case.get("attr")) or None):
+            return None
     if k == "only":          # a value came from an entry that does not name the host
         owners, prim = case.get("owners") or [], case.get("got_primary")
         if not owners or prim not in ent:
@@ -536,8 +619,35 @@ def gen_histories(rng, names, npairs_from=4, nrandom=2):
     return hist
 
 
-def cfg_history_real(path, hist, attrs, via_factory=False):
-    """answers of successive lookups on ONE SSHConfig object (or on the object(s) ssh_config_factory hands out)"""
+DRIVER_STEPS = {"built": 0, "failed": 0}
+
+
+def driver_step(path, host, i, keyfile):
+    """construct a real driver on an ssh-config-reading transport with this config path: it looks `host` up through
+    ssh_config_factory(path) -- the SAME cached object later lookups go through.  Alternates explicit port /
+    username / key with none at all."""
+    import logging
+    try:
+        if i % 2:
+            from scrapli.driver.generic import AsyncGenericDriver as D
+            transport = "asyncssh"
+        else:
+            from scrapli.driver.generic import GenericDriver as D
+            transport = "paramiko"
+        kw = {} if i % 3 == 2 else {"port": 8022 + i, "auth_username": "alice", "auth_private_key": keyfile}
+        logging.disable(logging.CRITICAL)
+        try:
+            D(host=host, transport=transport, ssh_config_file=path, auth_strict_key=False, **kw)
+        finally:
+            logging.disable(logging.NOTSET)
+        DRIVER_STEPS["built"] += 1
+    except Exception:  # noqa  (e.g. an empty host name): not this property's business
+        DRIVER_STEPS["failed"] += 1
+
+
+def cfg_history_real(path, hist, attrs, via_factory=False, keyfile=None):
+    """answers of successive lookups on ONE SSHConfig object (or on the object(s) ssh_config_factory hands out; then a
+    real driver is constructed on the same config path between the lookups)"""
     from scrapli.ssh_config import SSHConfig, ssh_config_factory
     out = []
     try:
@@ -551,6 +661,8 @@ def cfg_history_real(path, hist, attrs, via_factory=False):
         return [("exc", type(e).__name__ + ": " + str(e))] * len(hist)
     try:
         for i, nm in enumerate(hist):
+            if via_factory and keyfile is not None:
+                driver_step(path, hist[(i + 1) % len(hist)] if i % 2 else nm, i, keyfile)
             try:
                 out.append(("ok", host_obs(objs[i % len(objs)].lookup(nm), attrs)))
             except Exception as e:  # noqa
@@ -665,7 +777,7 @@ def check_case(ck, tmp, D, blocks, name, text, meta_live, stats, plain):
             owners = [k for k, (pats, o) in ent.items() if a in o and
                       (int(o[a]) if a == "port" else os.path.expanduser(o[a]) if a == "identity_file" else o[a]) == v]
             if not any(names_it(ent[k][0], k, name) for k in owners):
-                ck.violation({**base, "kind": "only", "attr": a, "value": v, "owners": owners,
+                ck.violation({**base, "kind": "only", "attr": a, "value": v, "got_value": v, "owners": owners,
                               "got_primary": hosts_r, "spec_primary": prim_s},
                              f"lookup({name!r}).{a} = {v!r} comes from entry {owners[:1]} which does not match the host", matcher)
         # O3 exact first
@@ -681,7 +793,7 @@ def check_case(ck, tmp, D, blocks, name, text, meta_live, stats, plain):
         else:
             for a in got:
                 if got[a] != exp_full[a]:
-                    ck.violation({**base, "kind": "inherit", "attr": a, "got_primary": hosts_r, "got": got[a], "want": exp_full[a]},
+                    ck.violation({**base, "kind": "inherit", "attr": a, "got_primary": hosts_r, "got": got[a], "got_value": got[a], "want": exp_full[a]},
                                  f"lookup({name!r}).{a} = {got[a]!r}, specification says {exp_full[a]!r}", matcher)
     stats["cases_with_no_oracle_deviation"] += int(len(ck.violations) + sum(ck.known_hits.values()) == stats["_seen"])
     stats["_seen"] = len(ck.violations) + sum(ck.known_hits.values())
@@ -809,6 +921,14 @@ def _run_cases(ck, tier, D, meta_live, stats, tmp):
         text = render(rng, bl, plain=True)
         for nm in names:
             cases.append((bl, nm, text, True, ("exhaustive",)))
+    # an exactly named entry under several overlapping wildcard entries, every block order
+    ov = gen_overlap_configs()
+    if tier == "quick":
+        ov = rng.sample(ov, 150)
+    for bl, nms in ov:
+        text = render(rng, bl, plain=rng.random() < 0.5)
+        for nm in nms[: (2 if tier == "quick" else 5)]:
+            cases.append((bl, nm, text, False, ("overlap",)))
     # random structured configs, every spelling
     nrand = 700 if tier == "quick" else 12000
     mixes = [(["base", "wild", "mut"], "clean"), (["base", "wild", "mut"], "clean"), (["base", "wild", "mut", "meta"], "meta"),
@@ -846,6 +966,7 @@ def _run_cases(ck, tier, D, meta_live, stats, tmp):
     stats.pop("_entries", None)
     # ---- lookup HISTORIES on one SSHConfig object / through ssh_config_factory: a lookup is a function of (file, name)
     hist_pend = []   # (kind, request index, real answers, case)
+    keyfile = tmp.write("not a key\n")
     for fidx, (text, fi) in enumerate(files.items()):
         if "exhaustive" in fi["tags"] and fidx % (4 if tier == "quick" else 1):
             continue
@@ -853,7 +974,7 @@ def _run_cases(ck, tier, D, meta_live, stats, tmp):
         hists = gen_histories(rng, list(fi["fresh"]), npairs_from=3 if tier == "quick" else 4, nrandom=2)
         for hi, hist in enumerate(hists):
             via = hi % 3 == 2
-            got = cfg_history_real(path, hist, attrs, via_factory=via)
+            got = cfg_history_real(path, hist, attrs, via_factory=via, keyfile=keyfile)
             ck.case(("cfg-history", text, tuple(hist), via), nontrivial=len(set(hist)) > 1,
                     sample={"text": text[:200], "history": hist, "answers": [str(g)[:80] for g in got]},
                     tags=("history", "history=cfg" + ("-factory" if via else ""), f"hist-len={len(hist)}"))
@@ -862,7 +983,7 @@ def _run_cases(ck, tier, D, meta_live, stats, tmp):
                     ck.violation({"kind": "history", "text": text, "blocks": [[p, o] for p, o in fi["blocks"]], "history": hist,
                                   "index": i, "name": nm, "via_factory": via, "got": list(g), "fresh": list(fi["fresh"][nm])},
                                  f"SSHConfig lookup({nm!r}) after the lookups {hist[:i]!r} on the same object"
-                                 f"{' (from ssh_config_factory)' if via else ''} = {g}, a fresh object answers {fi['fresh'][nm]}", matcher)
+                                 f"{' (through ssh_config_factory, with real drivers constructed on the same config path in between)' if via else ''} = {g}, a fresh object answers {fi['fresh'][nm]}", matcher)
                     break
             if fi["entries"] is not None and fi["indom"] and hi >= len(hists) - 3:
                 hist_pend.append(("cfg", len(reqs), got, {"text": text, "history": hist}))
@@ -988,6 +1109,7 @@ def _run_cases(ck, tier, D, meta_live, stats, tmp):
             if (real[0] == "exc") != mout[idx].startswith("err"):
                 stats["advisory_disagreements"] += 1
     stats.pop("_seen", None)
+    stats["driver_steps_built"], stats["driver_steps_failed"] = DRIVER_STEPS["built"], DRIVER_STEPS["failed"]
     for k, v in stats.items():
         ck.extra[k] = v
     ck.extra["parser_note"] = "partial: parser tied by differential testing only"
@@ -1017,7 +1139,8 @@ def replay(path):
                 print("known_hosts:", repr(v["known_hosts"]))
             else:
                 p = tmp.write(v["text"])
-                got = cfg_history_real(p, v["history"], g.DATA["host_attrs"], via_factory=v.get("via_factory", False))
+                got = cfg_history_real(p, v["history"], g.DATA["host_attrs"], via_factory=v.get("via_factory", False),
+                                       keyfile=tmp.write("not a key\n"))
                 fresh = [real_lookup(p, n, g.DATA["host_attrs"]) for n in v["history"]]
                 print("config:\n" + v["text"])
             for n, a, b in zip(v["history"], got, fresh):
